@@ -478,18 +478,24 @@ def gen_scale(rng, pairs):
     return sc
 
 
-def gen_defer(rng, nops):
-    """pointer coalescing on (deferPtrUpdateTime > 0), virtual clock"""
-    sc = Script("defer")
-    w, h = 64, 48
+def gen_defer(rng, nops, scaled=False):
+    """pointer coalescing on (deferPtrUpdateTime > 0), virtual clock.  scaled: the first client is on
+    a scale factor > 1 from the start (coalesced positions must be mapped back too) and changes it
+    once mid-way"""
+    sc = Script("defer-scaled" if scaled else "defer")
+    w, h = rng.choice([(64, 48), (100, 60)]) if scaled else (64, 48)
     defer = rng.choice([5, 20, 50])
     sc.op("screen %d %d 0 0 %d" % (w, h, defer), {"screen": (w, h, 0, 0, defer)})
     ncl = rng.choice([1, 1, 2])
     for c in range(1, ncl + 1):
-        handshake(sc, rng, c, 0, minor=8, split=False)
-    for _ in range(nops):
+        handshake(sc, rng, c, 0, minor=8, split=False, ws=rng.random() < 0.2)
+    if scaled:
+        sc.send(1, [m_scale(rng.choice([2, 3, 4]), rng.random() < 0.3)])
+    for k in range(nops):
         r = rng.random()
         c = rng.randint(1, ncl)
+        if scaled and k == nops // 2:
+            sc.send(1, [m_scale(rng.choice([1, 2, 3, 5]))])
         if r < 0.55:
             msgs = [rnd_ptr(rng, w, h, mask=rng.choice([0, 0, 0, 1, 1, 3])) for _ in range(rng.choice([1, 1, 2, 4]))]
             sc.send(c, msgs, rnd_cuts(rng, 6 * len(msgs)))
@@ -630,14 +636,19 @@ def oracle(lines, anns, impl):
                             exp.append(("cut c%d %d %016x" % (c, m[1], m[2]), False))
                     elif k == "ptr":
                         mask, x, y = m[1], m[2], m[3]
+                        if vo.get(c):
+                            # a view-only client never holds the pointer (its events do not reach the
+                            # application); if it held it before being made view-only it lets go
+                            if holder == c:
+                                holder = None
+                            phys[c] = 0
+                            continue
                         others_pressed = [d for d in phys if d != c and phys[d] and cur.get(d, ["gone"]) != ["gone"]]
                         blocked = holder is not None and holder != c
                         clear = blocked and not vo.get(holder) and pre.get(holder, ["", ""])[1:2] == ["open"]
                         if not blocked:
                             holder = c if mask else None
                         phys[c] = mask
-                        if vo.get(c):
-                            continue
                         s = scale.get(c)
                         if s:
                             fw, fh = W // s, H // s
@@ -646,12 +657,13 @@ def oracle(lines, anns, impl):
                             e = "ptr c%d %d %d %d" % (c, mask, x, y)
                         if defer:
                             simple = False
-                            if s or c in dirty:
+                            if c in dirty:
                                 sent_ok[c] = False
                             elif clear and not ptr_uncertain:
                                 pass                        # not accepted: another client holds a button
                             else:
-                                sent.setdefault(c, []).append(((mask, x, y), bool(others_pressed) or blocked or ptr_uncertain))
+                                ev = (mask, x, y) if not s else (mask, x * W / (W // s), y * H / (H // s))
+                                sent.setdefault(c, []).append((ev, bool(others_pressed) or blocked or ptr_uncertain))
                         if clear and not ptr_uncertain:
                             continue                       # must not be delivered
                         exp.append((e, bool(others_pressed) or blocked or ptr_uncertain))
@@ -691,16 +703,22 @@ def oracle(lines, anns, impl):
             got = delivered.get(c, [])
             i = 0
             for g in got:
-                while i < len(evs) and evs[i][0] != g:
+                while i < len(evs) and not same_ptr(evs[i][0], g):
                     i += 1
                 if i == len(evs):
                     return "defer: c%d: delivered pointer event %r is not the next of the events sent (stale or reordered); sent=%r delivered=%r" % (c, g, [e[0] for e in evs][-6:], got[-6:])
                 i += 1
             fin_st = st.get(c)
             if fin_st and fin_st[:2] == ["normal", "open"] and evs and not evs[-1][1]:
-                if not got or got[-1] != evs[-1][0]:
+                if not got or not same_ptr(evs[-1][0], got[-1]):
                     return "defer: c%d: last position sent %r was never delivered (last delivered %r)" % (c, evs[-1][0], got[-1] if got else None)
     return None
+
+
+def same_ptr(e, g):
+    """sent event e (mask, x, y; x/y possibly the real-valued mapped-back position) vs delivered g"""
+    return e[0] == g[0] and abs(e[1] - g[1]) <= 1.0 and abs(e[2] - g[2]) <= 1.0 and \
+        (not isinstance(e[1], int) or (e[1] == g[1] and e[2] == g[2]))
 
 
 def match_expected(exp, cbs):
@@ -784,8 +802,8 @@ def run(ctx):
             scripts.append(gen_mix(rng, rng.choice([10, 25, 50])))
         for _ in range(15 if not thorough else 150):
             scripts.append(gen_gate(rng))
-        for _ in range(25 if not thorough else 300):
-            scripts.append(gen_defer(rng, rng.choice([10, 30, 60])))
+        for k in range(30 if not thorough else 300):
+            scripts.append(gen_defer(rng, rng.choice([10, 30, 60]), scaled=(k % 3 == 0)))
         scripts.append(gen_limit(rng, [0, 1, LIMIT - 1, LIMIT, LIMIT + 1]))
         scripts.append(gen_limit(rng, [LIMIT, LIMIT + 1, 0x7FFFFFFF, 0x80000000, 0xFFFFFFFF, 0xFFF00000 + 5], ext=False))
         scripts.append(gen_limit(rng, [LIMIT, 5, 0x7FFFFFFF], ext=True))
@@ -827,7 +845,7 @@ def run(ctx):
                     fl["finding"] = fid
                 fails.append(fl)
         classify(sc, impl, dist, seen)
-        if len(samples) < 5 and sc.family in ("mix", "gate", "defer", "seg-ws") and len(sc.lines) < 40:
+        if len(samples) < 5 and sc.family in ("mix", "gate", "defer", "defer-scaled", "seg-ws") and len(sc.lines) < 40:
             samples.append({"script": [l[:200] for l in sc.lines], "impl": impl[:80]})
         if len(fails) >= 6:
             break
@@ -841,7 +859,6 @@ def run(ctx):
 
 
 PARTIAL = [
-    "pointer coalescing (deferPtrUpdateTime > 0, not the default): only the local facts defer_flush_keeps_order_partial / defer_delivers_pending_partial are proved; the interval statement (delivered positions are a subsequence of the sent ones and the last position sent is delivered once the interval has run out) needs a clock/schedule abstraction and is checked by the correspondence run + oracle on generated schedules (family `defer`) only",
     "handshake states are modelled abstractly (canonical `RFB ddd.ddd\\n` version strings, security type byte, password check as an oracle parameter): enough for `gated_handshake`; byte-level sscanf/DES behaviour belongs to C05",
     "extended-clipboard messages: framing, limit, Caps/Request/Peek handling are modelled to keep the parser in sync; the Provide payload (zlib, UTF-8 callback) is C18's and is excluded from the generator (model marks it out-of-model)",
     "deliver_exactly_once_in_order assumes the harness configuration of non-input messages (no protocol extensions registered, permitFileTransfer off, default setDesktopSizeHook, no xvp/textchat hooks): messages that this configuration answers by closing the connection (FixColourMapEntries, FileTransfer, unknown types, SetScale 0, bad TextChat length, bad pixel format) are modelled and correspondence-tested but are outside `Benign`",
@@ -856,7 +873,7 @@ ASSUMPTIONS = [
 
 META = {
     "technique": "Lean 4 theorems about an executable model of the client-message path (read programs over segmented streams, parser/encoder round trip, gating, pointer ownership, cut-text limit, scaling) + exact differential run of the model against the real rfbProcessClientMessage/rfbProcessEvents with deterministic stream segmentation (interposed read/select) + model-independent oracle + T0-regenerated sizes/offsets/limit",
-    "level_text": "Proof: Props/C06.lean proves, for the model in VncModel/Input, delivery exactly once / unaltered / in order for every sequence of well-formed messages of a permitted client (incl. all benign non-input message types and mid-stream SetScale), the three gating clauses, invariance under every segmentation for every byte stream, the exact 2^20 cut-text boundary with isolation of the closed connection, parser synchronisation, and the exact scaled mapping without int overflow. The model is tied to the code on every run by regenerated header constants and by an exact differential run (real server in-process vs compiled Lean driver) over generated sessions, exhaustive 1-/2-cut segmentations of every message type, limit boundaries with 1 MiB payloads, exhaustive ScaleX/ScaleY sweeps, plus a direct oracle.",
-    "level_note": "Trusted: Lean kernel (axioms propext/Classical.choice/Quot.sound only), harness incl. the read/select interposers, driver, generators (testing; distribution in evidence). Modelled abstractly: handshake (C05), sharing policy (C14, neutralised by alwaysShared). Not modelled: threads (C13), TLS/WebSocket transports (C09), extended clipboard payload (C18), UDP input. Not proved: the coalescing interval statement (partial).",
+    "level_text": "Proof: Props/C06.lean proves, for the model in VncModel/Input, delivery exactly once / unaltered / in order for every sequence of well-formed messages of a permitted client (incl. all benign non-input message types and mid-stream SetScale), the three gating clauses, invariance under every segmentation for every byte stream, the exact 2^20 cut-text boundary with isolation of the closed connection, parser synchronisation, the exact scaled mapping without int overflow, and for pointer coalescing (deferPtrUpdateTime > 0, fixed code) over every schedule with an arbitrary non-decreasing clock: delivered events are a subsequence of the sent ones, the last position is delivered, mask changes are never coalesced away. The model is tied to the code on every run by regenerated header constants and by an exact differential run (real server in-process vs compiled Lean driver) over generated sessions, exhaustive 1-/2-cut segmentations of every message type, limit boundaries with 1 MiB payloads, exhaustive ScaleX/ScaleY sweeps, plus a direct oracle.",
+    "level_note": "Trusted: Lean kernel (axioms propext/Classical.choice/Quot.sound only), harness incl. the read/select interposers, driver, generators (testing; distribution in evidence). Modelled abstractly: handshake (C05), sharing policy (C14, neutralised by alwaysShared). Not modelled: threads (C13), TLS/WebSocket transports (C09), extended clipboard payload (C18), UDP input.",
     "design_ref": "DESIGN.md section 7, C06",
 }
